@@ -245,6 +245,13 @@ package mysql
 //@ func (*mysql.Node).IsReadOnly
 //@   assert_at queryRow#1 get.IsReadOnly.query [C10,C18,C08]: callarg0 == queryIsReadOnly
 //@   assert_at return#* get.IsReadOnly.answer [C10,C18,C08]: (result0 <==> ror.ReadOnly > 0) && (result1 <==> ror.SuperReadOnly > 0) && result2 == resultof("queryRow", 1)
+// ReplicationLag: a lag the server does not report (NULL) is never turned into a number; it is "unknown" (nil)
+//@ func (*mysql.Node).ReplicationLag
+//@   assert_at return#* get.ReplicationLag.null_is_unknown [C17,C19]: (reached("GetReplicationLag", 1) && !resultof("GetReplicationLag", 1).Valid ==> result0 == nil) && (reached("queryRow", 1) && !errIs(resultof("queryRow", 1), sql.ErrNoRows) && !lag.Lag.Valid ==> result0 == nil)
+//@   assert_at return#* get.ReplicationLag.value [C17,C19]: reached("GetReplicationLag", 1) && resultof("GetReplicationLag", 1).Valid ==> result0 != nil && deref(result0) == resultof("GetReplicationLag", 1).Float64
+//@ func (*mysql.Node).GetStartupTime
+//@   assert_at queryRow#1 get.GetStartupTime.query [C17]: callarg0 == queryGetLastStartupTime
+//@   assert_at return#* get.GetStartupTime.answer [C17]: reached("queryRow", 1) && result1 == resultof("queryRow", 1)
 //@ func (*mysql.Node).IsOffline
 //@   assert_at queryRow#1 get.IsOffline.query [C17]: callarg0 == queryGetOfflineMode
 //@   assert_at return#* get.IsOffline.answer [C17]: result1 == resultof("queryRow", 1) && (result1 == nil ==> (result0 <==> status.OfflineMode == 1)) && (result1 != nil ==> !result0)
